@@ -54,7 +54,10 @@ class ClassGen:
         stmts = []
         stmts.append(('class', 'Num', None, [('field', 'd', NUM)]))
         stmts.append(('class', 'Word', None, [('field', 'w', WORD)]))
-        leafs = ['Num', 'Word']
+        # classes that store no field at all (only pass / let members) still consume input and carry a span
+        stmts.append(('class', 'Mark', None, [('pass', ('str', '#'))]))
+        stmts.append(('class', 'Tick', None, [('let', 't', ('re', "'+", False)), ('pass', ('opt', ('str', '.')))]))
+        leafs = ['Num', 'Word', 'Mark', 'Tick']
         for i, name in enumerate(names):
             later = names[i + 1:] + leafs
             members = []
